@@ -7,6 +7,7 @@ import (
 	"errors"
 	"fmt"
 	"os"
+	"path/filepath"
 	"strings"
 	"sync"
 	"sync/atomic"
@@ -19,6 +20,7 @@ import (
 	"verif/engine/envdfs"
 	"verif/engine/ev"
 	"verif/engine/explore"
+	"verif/engine/harvest"
 	"verif/engine/ksim"
 )
 
@@ -335,6 +337,109 @@ func replayC17(hist []int, envp []int, shape ksim.Shape) []Viol {
 	return v
 }
 
+// c17Scale: MANY pending acknowledgements on one client.  n NoWait requests of which number k is refused,
+// WaitForPendingACKs (may stop at the error), one more refused NoWait request, then waits until everything is
+// consumed: every ACK exactly once, in order, every error surfaces.  n = 300, 1000 and just above every
+// integer constant 16..5000 found in the tree's audit.go (compaction points, batch sizes ...).
+func c17Scale(run *ev.Run) {
+	ns := []int{300, 1000}
+	hv := harvest.Files([]string{filepath.Join(ev.Repo(), "audit.go")}, harvest.Options{})
+	for _, N := range hv.Thresholds(16, 5000) {
+		ns = append(ns, int(N)+44, 2*int(N)+44)
+	}
+	for _, n := range ns {
+		for _, k := range []int{n - 20, n / 2, 0} {
+			hist := make([]int, 0, n+4)
+			for i := 0; i < n; i++ {
+				hist = append(hist, aRateNoWait)
+			}
+			hist = append(hist, aWaitAcks, aEnabledNoWait, aWaitAcks)
+			env := envdfs.New(nil)
+			env.Script = map[string]map[int]int{"verdict(type=1001)": {k: 1, n: 1}}
+			viol, _, ops, _ := execC17(hist, env, ksim.Shape{})
+			run.Add("traces_validated_against_impl", 1)
+			run.Add("transitions", ops)
+			for _, v := range viol {
+				run.Report(ev.Violation{Sig: v.Sig, What: fmt.Sprintf("scale history: %d NoWait requests (number %d refused), WaitForPendingACKs, one more refused NoWait request, waits until drained: ", n, k) + tailStr(v.What, 1500), Replay: map[string]interface{}{"n": n, "k": k}})
+			}
+		}
+	}
+	run.Set("scale_histories_pending_acks", ns)
+}
+
+// c17TwoClients: several AuditClients in ONE process (each on its own simulated kernel): every interleaving of
+// X:[SetPID, Close, Close] Y:[SetPID, Close] Z:[SetRateLimit(NoWait), Close].  What one client does on Close
+// depends on ITS history only: X and Y clear the PID once each before closing their socket once, Z never.
+func c17TwoClients(run *ev.Run) {
+	type cl struct {
+		name string
+		prog []string
+		sim  *ksim.Sim
+		c    *libaudit.AuditClient
+		pc   int
+	}
+	progs := [][]string{{"SetPID", "Close", "Close"}, {"SetPID", "Close"}, {"Rate", "Close"}}
+	var n int64
+	var rec func(order []int, left []int)
+	runOrder := func(order []int) {
+		var cs []*cl
+		for i, p := range progs {
+			sim := ksim.New(nil)
+			sim.NoDeviations = true
+			cs = append(cs, &cl{name: string(rune('X' + i)), prog: p, sim: sim, c: &libaudit.AuditClient{Netlink: sim}})
+		}
+		var trace []string
+		for _, i := range order {
+			c := cs[i]
+			op := c.prog[c.pc]
+			c.pc++
+			trace = append(trace, c.name+"."+op)
+			switch op {
+			case "SetPID":
+				_ = c.c.SetPID(libaudit.WaitForReply)
+			case "Rate":
+				_ = c.c.SetRateLimit(3, libaudit.NoWait)
+			case "Close":
+				_ = c.c.Close()
+			}
+		}
+		n++
+		for i, c := range cs {
+			clears := 0
+			for _, s := range c.sim.Sends {
+				if isPIDClear(s) {
+					clears++
+				}
+			}
+			wantClears := 1
+			if i == 2 {
+				wantClears = 0
+			}
+			if clears != wantClears || c.sim.Closes != 1 {
+				run.Report(ev.Violation{Sig: "C17 close-depends-on-other-clients", What: fmt.Sprintf("three clients in one process, calls in the order %v: client %s (program %v) sent %d PID-clear requests (want %d) and closed its socket %d times (want 1)", trace, c.name, c.prog, clears, wantClears, c.sim.Closes), Replay: map[string]interface{}{"order": trace}})
+				return
+			}
+		}
+	}
+	rec = func(order []int, left []int) {
+		done := true
+		for i, l := range left {
+			if l > 0 {
+				done = false
+				left[i]--
+				rec(append(order, i), left)
+				left[i]++
+			}
+		}
+		if done {
+			runOrder(order)
+		}
+	}
+	rec(nil, []int{3, 2, 2})
+	run.Add("traces_validated_against_impl", n)
+	run.Set("multi_client_interleavings", n)
+}
+
 // ---- concurrent Close under the scheduler --------------------------------------
 
 type closeProg struct {
@@ -494,6 +599,8 @@ func checkC17(tier string, raceBin string) int {
 		jobs = append(jobs, Job{Kind: "c17", Histories: sweepH, Bound: 2, Shapes: shapes[i:k]})
 	}
 	collect(run, "C17", jobs, nil)
+	c17Scale(run)
+	c17TwoClients(run)
 	// concurrent Close: all interleavings
 	var total int64
 	for _, p := range closePrograms() {
